@@ -145,6 +145,7 @@ type genOpts struct {
 	maxVars   int
 	dupKey    bool // two variables share (GUID, name)
 	emptyName bool
+	small     bool // short values (stores that are nested into others)
 }
 
 // genWF builds a store that satisfies WFC by construction: variables with chains of data-only
@@ -154,6 +155,13 @@ func genWF(r *rand.Rand, o genOpts) *recipe {
 	rc := &recipe{Pol: 0xFF}
 	if r.Intn(3) == 0 {
 		rc.Pol = 0
+	}
+	randValue := func(r *rand.Rand) []byte {
+		v := randValue(r)
+		if o.small && len(v) > 20 {
+			v = v[:20]
+		}
+		return v
 	}
 	nv := r.Intn(o.maxVars + 1)
 	nGuids := r.Intn(4)
@@ -334,7 +342,97 @@ func genWF(r *rand.Rand, o genOpts) *recipe {
 	case 4:
 		rc.Free = 100 + r.Intn(300)
 	}
+	fixChecksums(r, rc)
 	return rc
+}
+
+// genNested builds a store of the RECURSIVE grammar that satisfies WFCN by construction: a genWF
+// store some of whose values — of heads, superseded, current and orphan entries alike — are stores
+// again (depth ≤ `depth`), each built the same way, so that nested stores have link chains, dead
+// and orphan entries of their own and compaction has work to do at every level.
+func genNested(r *rand.Rand, depth int, pol int) *recipe {
+	var rc *recipe
+	for try := 0; ; try++ {
+		rc = genWF(r, genOpts{maxVars: 3, small: pol >= 0})
+		if pol >= 0 {
+			// a nested store: prefer one with a link chain inside
+			chain := false
+			for i := range rc.Entries {
+				if rc.Entries[i].Kind != 'x' && rc.Entries[i].Next >= 0 {
+					chain = true
+				}
+			}
+			if !chain && try < 4 {
+				continue
+			}
+			rc.Pol = byte(pol)
+			rc.Free = r.Intn(14)
+		}
+		break
+	}
+	if depth <= 1 {
+		return rc
+	}
+	var carriers []int
+	for i := range rc.Entries {
+		if rc.Entries[i].Kind != 'x' {
+			carriers = append(carriers, i)
+		}
+	}
+	if len(carriers) == 0 {
+		return rc
+	}
+	n := 1
+	if r.Intn(3) == 0 {
+		n = 2
+	}
+	// the interesting carrier: the CURRENT value of a superseded variable (a data-only entry)
+	var current []int
+	for i := range rc.Entries {
+		if rc.Entries[i].Kind == 'd' && rc.Entries[i].Next < 0 {
+			for _, t := range rc.tgt {
+				if t == i {
+					current = append(current, i)
+					break
+				}
+			}
+		}
+	}
+	for k := 0; k < n; k++ {
+		i := carriers[r.Intn(len(carriers))]
+		if k == 0 && len(current) > 0 && r.Intn(3) != 0 {
+			i = current[r.Intn(len(current))]
+		}
+		e := &rc.Entries[i]
+		d := depth - 1
+		if d > 1 && r.Intn(2) == 0 {
+			d = 1
+		}
+		e.Nested = genNested(r, d, int(rc.Pol))
+		if r.Intn(12) == 0 {
+			e.Nested = &recipe{Pol: rc.Pol, Free: r.Intn(9)} // a store without entries: erased space
+		}
+		e.Value, e.Ext = nil, nil
+	}
+	relink(rc)
+	return rc
+}
+
+// innerNames: variable names of the nested stores (invalidating them must not touch anything
+// unless a top-level variable has the same name)
+func (rc *recipe) innerNames() [][]byte {
+	var out [][]byte
+	for i := range rc.Entries {
+		if n := rc.Entries[i].Nested; n != nil {
+			for j := range n.Entries {
+				if n.Entries[j].Kind == 'v' {
+					out = append(out, n.Entries[j].nameText())
+				}
+			}
+			out = append(out, n.innerNames()...)
+		}
+	}
+	return out
 }
 
 // names usable for invalidation: every variable name of the recipe, plus decoys
@@ -344,6 +442,9 @@ func (rc *recipe) someName(r *rand.Rand) []byte {
 		if rc.Entries[i].Kind == 'v' {
 			names = append(names, rc.Entries[i].nameText())
 		}
+	}
+	if in := rc.innerNames(); len(in) > 0 && r.Intn(4) == 0 {
+		return in[r.Intn(len(in))]
 	}
 	switch {
 	case len(names) == 0 || r.Intn(8) == 0:
@@ -417,7 +518,7 @@ func genSemi(r *rand.Rand) (string, *recipe) {
 		}
 	}
 	pick := func(l []int) int { return l[r.Intn(len(l))] }
-	switch r.Intn(12) {
+	switch r.Intn(14) {
 	case 0:
 		return "semi:dup-key", genWF(r, genOpts{maxVars: 4, dupKey: true})
 	case 1: // dangling link: into the free space, beyond the store, or into the middle of an entry
@@ -501,6 +602,40 @@ func genSemi(r *rand.Rand) (string, *recipe) {
 			relink(rc)
 			return "semi:nested", rc
 		}
+	case 12, 13: // nested stores just outside the well-formedness of the recursive grammar
+		nr := genNested(r, 2+r.Intn(2), -1)
+		for i := range nr.Entries {
+			e := &nr.Entries[i]
+			if e.Nested == nil {
+				continue
+			}
+			switch r.Intn(4) {
+			case 0: // an extended header behind the nested store: fiano reads it as part of the store
+				e.Ext = &ext{Attrs: 0, Body: randBytes(r, 8+32*r.Intn(2))}
+				if e.Kind == 'd' {
+					e.Ext.Body = randBytes(r, 40)
+				}
+				relink(nr)
+				return "semi:nested-ext", nr
+			case 1: // nested store of the other erase polarity
+				e.Nested.Pol ^= 0xFF
+				return "semi:nested-pol", nr
+			case 2: // duplicate keys inside
+				in := genWF(r, genOpts{maxVars: 3, dupKey: true, small: true})
+				in.Pol = nr.Pol
+				e.Nested = in
+				relink(nr)
+				return "semi:nested-dup", nr
+			case 3: // a dangling link inside
+				for j := range e.Nested.Entries {
+					if f := &e.Nested.Entries[j]; f.Kind == 'v' && f.Next < 0 {
+						f.Next = 0xFFFF
+						return "semi:nested-dangling", nr
+					}
+				}
+			}
+		}
+		return "semi:nested-wf", nr
 	case 10: // extended header too small for what the attributes promise
 		for _, i := range append(append([]int{}, vars...), datas...) {
 			e := &rc.Entries[i]
